@@ -31,7 +31,15 @@ struct Case {
 // ------------------------------------------------------------------ the trial itself (runs in the exec'ed child)
 std::atomic<int> g_arrived{ 0 }, g_returned{ 0 }, g_overlap{ -1 }, g_zero{ 0 }, g_one{ 0 }, g_neg{ 0 };
 pthread_barrier_t g_bar;
-struct TArg { int id; uint64_t seed; int ops; uint64_t digest; unsigned char first_random[32]; };
+struct TArg { int id; uint64_t seed; int ops; uint64_t digest; unsigned char first_random[32]; unsigned features = 0; };
+// everything the library says about the processor: a thread that has returned from sodium_init must see the final answer (no lazily
+// completed detection), and the getters themselves are API functions threads may call concurrently
+unsigned read_features() {
+    unsigned f = 0; int (*g[])(void) = { sodium_runtime_has_sse2, sodium_runtime_has_sse3, sodium_runtime_has_ssse3, sodium_runtime_has_sse41, sodium_runtime_has_avx, sodium_runtime_has_avx2, sodium_runtime_has_avx512f,
+        sodium_runtime_has_pclmul, sodium_runtime_has_aesni, sodium_runtime_has_rdrand, sodium_runtime_has_neon, sodium_runtime_has_armcrypto, crypto_aead_aes256gcm_is_available };
+    for (size_t i = 0; i < sizeof g / sizeof g[0]; i++) if (g[i]()) f |= 1u << i;
+    return f;
+}
 int g_focus = -1;
 
 uint64_t workload(uint64_t seed, int ops) {
@@ -80,6 +88,7 @@ void *thread_main(void *a_) {
     int rc = sodium_init();
     if (g_returned.fetch_add(1) == 0) g_overlap.store(g_arrived.load());
     if (rc == 0) g_zero.fetch_add(1); else if (rc == 1) g_one.fetch_add(1); else g_neg.fetch_add(1);
+    a->features = read_features();
     randombytes_buf(a->first_random, sizeof a->first_random);      // every thread's very first draw: compared across threads after the join
     // a thread that has returned from sodium_init must see a fully initialised library
     a->digest = workload(a->seed, a->ops);
@@ -170,14 +179,16 @@ int trial_main(const Case &c) {
         for (int j = i + 1; j < c.nthreads; j++) if (memcmp(args[(size_t) i].first_random, args[(size_t) j].first_random, 32) == 0) dup_random++;
     }
     if (c.focus < 0) bad_digest += phase2(c, dup_random);
-    printf("TRIAL zero=%d one=%d neg=%d overlap=%d bad_digest=%d again=%d dup_random=%d\n", g_zero.load(), g_one.load(), g_neg.load(), g_overlap.load(), bad_digest, sodium_init(), dup_random);
+    int bad_feat = 0; unsigned fin = read_features();
+    for (int i = 0; i < c.nthreads; i++) if (args[(size_t) i].features != fin) bad_feat++;
+    printf("TRIAL zero=%d one=%d neg=%d overlap=%d bad_digest=%d again=%d dup_random=%d bad_feat=%d\n", g_zero.load(), g_one.load(), g_neg.load(), g_overlap.load(), bad_digest, sodium_init(), dup_random, bad_feat);
     fflush(stdout);
     return 0;
 }
 
 // ------------------------------------------------------------------ the exploring parent
 std::string g_self;
-struct TrialResult { bool ran; int zero, one, neg, overlap, bad_digest, again, dup_random = 0; bool race; std::string race_text; int status; bool hung = false; };
+struct TrialResult { bool ran; int zero, one, neg, overlap, bad_digest, again, dup_random = 0, bad_feat = 0; bool race; std::string race_text; int status; bool hung = false; };
 const double TRIAL_TIMEOUT_S = 180.0;
 TrialResult run_trial(const Case &c) {
     TrialResult t; t.ran = false; t.zero = t.one = t.neg = t.overlap = t.bad_digest = t.again = 0; t.race = false; t.status = 0;
@@ -207,7 +218,7 @@ TrialResult run_trial(const Case &c) {
     std::ifstream f(tmpl); std::string all((std::istreambuf_iterator<char>(f)), std::istreambuf_iterator<char>()); unlink(tmpl);
     t.status = st;
     size_t p = all.find("TRIAL zero=");
-    if (p != std::string::npos && sscanf(all.c_str() + p, "TRIAL zero=%d one=%d neg=%d overlap=%d bad_digest=%d again=%d dup_random=%d", &t.zero, &t.one, &t.neg, &t.overlap, &t.bad_digest, &t.again, &t.dup_random) == 7) t.ran = true;
+    if (p != std::string::npos && sscanf(all.c_str() + p, "TRIAL zero=%d one=%d neg=%d overlap=%d bad_digest=%d again=%d dup_random=%d bad_feat=%d", &t.zero, &t.one, &t.neg, &t.overlap, &t.bad_digest, &t.again, &t.dup_random, &t.bad_feat) == 8) t.ran = true;
     size_t q = all.find("WARNING: ThreadSanitizer");
     if (q != std::string::npos) { t.race = true; t.race_text = all.substr(q, 1800); }
     if (!t.ran && !t.race) t.race_text = all.substr(0, 600);
@@ -230,6 +241,7 @@ bool run(const Case &c, std::string &msg) {
     if (t.zero != 1 || t.one != c.nthreads - 1 || t.neg != 0) { snprintf(b, sizeof b, "sodium_init with %d racing threads returned 0 to %d, 1 to %d and -1 to %d of them (expected exactly one 0)", c.nthreads, t.zero, t.one, t.neg); msg = b; return false; }
     if (t.again != 1) { snprintf(b, sizeof b, "sodium_init after initialisation returned %d instead of 1", t.again); msg = b; return false; }
     if (t.bad_digest) { snprintf(b, sizeof b, "%d of %d threads computed results that differ from the same workload run sequentially", t.bad_digest, c.nthreads); msg = b; return false; }
+    if (t.bad_feat) { snprintf(b, sizeof b, "%d of %d threads, right after sodium_init returned, saw CPU feature flags / AES-256-GCM availability that differ from the final ones", t.bad_feat, c.nthreads); msg = b; return false; }
     if (t.dup_random) { snprintf(b, sizeof b, "%d pair(s) of threads (family %s) obtained identical 32-byte outputs from randombytes_buf, or the output of an unseeded generator", t.dup_random, c.family ? "internal RNG" : "default RNG"); msg = b; return false; }
     g_last_overlap = t.overlap;
     return true;
